@@ -22,9 +22,7 @@ import (
 
 const (
 	tieSched     = "bus-schedules"
-	tieSchedRule = "K4: macro moves (start a Send, release a goroutine parked at bus.send.afterSnapshot / bus.send.beforeListener / bus.listen.beforeRegister / listener.stop.enter, cancel a listen context, cancel a send context, post one receive) chosen at random among those applicable, executed on the real minibus.Bus with 1-3 senders and 0-3 listeners; after every move the harness waits until every goroutine is parked at a yield point or blocked (wait reason from runtime.Stack: select / sync.RWMutex.RLock / sync.RWMutex.Lock / chan receive; no timeouts decide an outcome) and reports per sender {idle+results, parked where, blocked on RLock, blocked in select}, per listener {Listen parked/returned, watcher awaiting/parked/blocked on Lock/gone, events received, receive pending, close seen}; the Lean model must have a configuration reachable by the same macro move (all interleavings and select choices of the released goroutines) with exactly this observation. one evaluation = one schedule (all its steps agree); non-trivial = the schedule contains a cancel while some sender is inside Send; distinct = distinct op sequences"
-	tiePipe      = "pipeline-census"
-	tiePipeRule  = "not run"
+	tieSchedRule = "K4: macro moves (start a Send, release a goroutine parked at bus.send.afterSnapshot / bus.send.beforeListener / listener.send.locked (holding the read lock) / bus.listen.beforeRegister / listener.stop.enter, cancel a listen context, cancel a send context, post one receive) chosen at random among those applicable, executed on the real minibus.Bus with 1-3 senders and 0-3 listeners; after every move the harness waits until every goroutine is parked at a yield point or blocked (wait reason from runtime.Stack: select / sync.RWMutex.RLock / sync.RWMutex.Lock / chan receive; no timeouts decide an outcome) and reports per sender {idle+results, parked where (a/b/k), blocked on RLock, blocked in select}, per listener {Listen parked/returned, watcher awaiting/parked/blocked on Lock/gone, events received, receive pending, close seen}; the Lean model must have a configuration reachable by the same macro move (all interleavings and select choices of the released goroutines) with exactly this observation. one evaluation = one schedule (all its steps agree); non-trivial = the schedule contains a cancel while some sender is inside Send; distinct = distinct op sequences"
 )
 
 type SchedCase struct {
@@ -37,7 +35,7 @@ type SchedCase struct {
 
 func schedScenarios(f lib.Flags) []Scenario {
 	r := lib.NewRand(f.Seed*104729 + 3)
-	n := f.N(250, 3000)
+	n := f.N(600, 5000)
 	var res []Scenario
 	for i := 0; i < n; i++ {
 		sc := SchedCase{Seed: r.Int63(), NS: 1 + r.Intn(3), NL: r.Intn(4), Steps: 8 + r.Intn(30)}
@@ -108,7 +106,7 @@ func allStates() map[int64]string {
 
 func (c *ctl) handler(point string) {
 	switch point {
-	case "bus.send.afterSnapshot", "bus.send.beforeListener", "bus.listen.beforeRegister", "listener.stop.enter":
+	case "bus.send.afterSnapshot", "bus.send.beforeListener", "bus.listen.beforeRegister", "listener.stop.enter", "listener.send.locked":
 	default:
 		return
 	}
@@ -151,9 +149,12 @@ func (c *ctl) status() (obs string, stable bool) {
 	for t, s := range c.ss {
 		st := "?"
 		if p := c.parked[s.gid]; p != nil {
-			if p.point == "bus.send.afterSnapshot" {
+			switch p.point {
+			case "bus.send.afterSnapshot":
 				st = "a"
-			} else {
+			case "listener.send.locked":
+				st = "k"
+			default:
 				st = "b"
 			}
 		} else if !s.inCall {
@@ -288,7 +289,7 @@ func (c *ctl) applicable(obs string) []string {
 			if s.sent < cap(s.cmd) {
 				ops = append(ops, fmt.Sprintf("send %d", t), fmt.Sprintf("send %d", t))
 			}
-		case 'a', 'b':
+		case 'a', 'b', 'k':
 			ops = append(ops, fmt.Sprintf("S %d", t), fmt.Sprintf("S %d", t), fmt.Sprintf("S %d", t))
 			if s.cancel != nil {
 				ops = append(ops, fmt.Sprintf("cancelSend %d", t))
@@ -467,7 +468,7 @@ func runSched(sc Scenario, drv *lib.Driver) (out Outcome) {
 	model, code := "", ""
 	nontrivial := false
 	step := func(op string) bool {
-		if strings.HasPrefix(op, "cancel ") && strings.ContainsAny(strings.SplitN(obs, ";L", 2)[0], "abrs") {
+		if strings.HasPrefix(op, "cancel ") && strings.ContainsAny(strings.SplitN(obs, ";L", 2)[0], "abkrs") {
 			nontrivial = true
 		}
 		if strings.HasPrefix(op, "cancel ") {
@@ -491,6 +492,19 @@ func runSched(sc Scenario, drv *lib.Driver) (out Outcome) {
 			o.Ties = append(o.Ties, TieRec{Tie: tieSched, Err: "driver: " + err.Error()})
 			agree = false
 			return false
+		}
+		for _, part := range strings.Split(obs, ";") {
+			v := part[strings.Index(part, "=")+1:]
+			switch {
+			case part[0] == 'S' && v[0] == 'r':
+				o.count("tie:seen:sender-blocked-on-RLock")
+			case part[0] == 'S' && v[0] == 's':
+				o.count("tie:seen:sender-blocked-in-select")
+			case part[0] == 'L' && v[1] == 'w':
+				o.count("tie:seen:watcher-blocked-on-Lock")
+			case part[0] == 'L' && strings.HasSuffix(v, "x"):
+				o.count("tie:seen:consumer-saw-close")
+			}
 		}
 		if ans != "ok "+obs {
 			agree, model, code = false, ans+"  (after "+strings.Join(done, " / ")+")", obs
@@ -538,11 +552,6 @@ func runSched(sc Scenario, drv *lib.Driver) (out Outcome) {
 			o.violate(monShutdown, "C10/bus/goroutine-leak", "goroutines of cancelled listeners are still alive after the schedule wound down",
 				"no goroutine inside internal/minibus", censusSummary(left)+" after "+strings.Join(done, " / "))
 		}
-		for _, l := range c.ls {
-			if l.returned && !strings.Contains(obs, "?") {
-				o.count("tie:listener-ended")
-			}
-		}
 	}
 	o.Ties = append(o.Ties, TieRec{Tie: tieSched, Key: strings.Join(done, "/"), Nontrivial: nontrivial, Model: model, Code: code})
 	// release anything still parked so the goroutines can end
@@ -580,5 +589,3 @@ func runSched(sc Scenario, drv *lib.Driver) (out Outcome) {
 	}
 	return out
 }
-
-func runPipe(sc Scenario, drv *lib.Driver) Outcome { return Outcome{} }
